@@ -15,18 +15,23 @@ Definition ubf_of (l : list Z) : res ubf := ubf_new (nth 0 l 0) (nth 1 l 0).
 
 (* setter history: each op is [0; int] (value = int) or 1 :: octets (value = bytes);
    a refused assignment leaves the object unchanged; output after every op *)
+Definition ubf_op_of (o : list Z) : option ubf_op :=
+  match o with
+  | 0 :: v :: _ => Some (SetInt v)
+  | 1 :: b => Some (SetBytes b)
+  | _ => None
+  end.
 Fixpoint ubf_history (f : ubf) (ops : list (list Z)) : args :=
   match ops with
   | [] => []
   | o :: rest =>
-      let r := match o with
-               | 0 :: v :: _ => ubf_set_int f v
-               | 1 :: b => ubf_set_bytes f b
-               | _ => Err EOther
-               end in
-      match r with
-      | Ok f' => ([0] :: ubf_obs f') ++ ubf_history f' rest
-      | Err e => [1; err_code e] :: ubf_history f rest
+      match ubf_op_of o with
+      | None => [[1; 97]]
+      | Some op =>
+          match ubf_step f op with
+          | Ok f' => ([0] :: ubf_obs f') ++ ubf_history (ubf_apply f op) rest
+          | Err e => [1; err_code e] :: ubf_history (ubf_apply f op) rest
+          end
       end
   end.
 
